@@ -1081,7 +1081,15 @@ class C12Checker(ShadowEq):
                 if a != b:
                     self.fail("getitem_ne_query", f"key {k.hex()}: sketch[key]={a} query={b}")
         op = ev["op"]
+        if ev.get("same_route"):
+            w.probes["key_lifted_to_just_below_ceiling"] += 1
+            return
         w.probes["entry_" + op] += 1
+        if w.cfg.get("prime") and op in ("add", "update_dict"):
+            for k, v in info["exp"]:
+                t = n.truth[w.ident(k)]
+                if t >= U32MAX and t - v < U32MAX and v > 1:
+                    w.probes["multiplicity_straddles_ceiling"] += 1
         if op in ("add_ngram", "update_ngram"):
             ks = [ev["key"]] if op == "add_ngram" else ev["keys"]
             for hk in ks:
@@ -1097,6 +1105,7 @@ class C12(WMode):
         cfg = draw_config(rng, fam, wmax=8, nodes_max=2, events=(10, 40), run_index=getattr(self, "run_index", None))
         cfg["shadow"] = True
         cfg["shadow_single_adds"] = True
+        cfg["land"] = 0  # the shadow pays one call per unit of multiplicity
         cfg["weights"] = {"work": 100}
         cfg["entry_weights"] = {"add": 3, "update_list": 3, "update_dict": 3, "add_ngram": 3, "update_ngram": 2}
         cfg["mult"] = {"one": 2, "small": 4, "mid": 1.5, "zero": 1, "pow2s": 1}
@@ -1107,7 +1116,36 @@ class C12(WMode):
         for _ in range(3):
             pool.append(rand_key(rng, rng.randrange(2, 41)))
         cfg["pool"] = [hexk(k) for k in pool]
+        # round 11 (S107): "add(key, v) equals v single adds" must also hold where the v adds
+        # cross the 32-bit ceiling. v single adds of 2^32 are not affordable, so a share of the
+        # linear / heavy-hitter runs lift a key to a few counts below the ceiling with one
+        # add(key, big) applied to the sketch and to its shadow through the same entry point
+        # (no claim is made about that call), and then straddle the ceiling with small v.
+        if fam in ("linear", "hh") and rng.random() < 0.3:
+            cfg["prime"] = True
         return cfg
+
+    def gen(self, rng, w, gs):
+        if w.cfg.get("prime"):
+            from .gen import _draw_fields, _via
+
+            primed = getattr(gs, "primed", None)
+            if primed is not None and rng.random() < 0.55:
+                i, k = primed
+                v = rng.randrange(1, 13)
+                if rng.random() < 0.5:
+                    ev = {"op": "add", "node": i, "via": _via(rng, w, i), "key": k, "v": v}
+                else:
+                    ev = {"op": "update_dict", "node": i, "via": _via(rng, w, i), "items": [[k, v]]}
+                if rng.random() < 0.4:
+                    gs.primed = None
+                return _draw_fields(rng, w, ev)
+            if rng.random() < 0.15:
+                i = rng.randrange(len(w.nodes))
+                k = rng.choice(w.cfg["pool"])
+                gs.primed = (i, k)
+                return {"op": "add", "node": i, "via": 0, "key": k, "v": U32MAX - rng.randrange(0, 9), "same_route": True}
+        return super().gen(rng, w, gs)
 
     def checker(self, cfg):
         return C12Checker()
@@ -1238,6 +1276,11 @@ class C16Checker(ShadowEq):
         if op == "drop_view":
             if info["shm_name"] and not os.path.exists("/dev/shm/" + info["shm_name"]):
                 self.fail("segment_gone_after_view_drop", f"node={i} segment {info['shm_name']} no longer listed")
+            if info.get("view_own"):
+                # the view owned a block of its own: dropping that owner releases it
+                if os.path.exists("/dev/shm/" + info["view_own"]):
+                    self.fail("view_own_segment_left_after_drop", f"node={i} the dropped view's own segment {info['view_own']} is still listed")
+                w.probes["shared_memory_view_drops_checked"] += 1
             w.probes["view_drops_checked"] += 1
         if op == "drop_owner":
             if info["listed_after_owner"] or info["listed_after"]:
